@@ -61,4 +61,18 @@ PROPS = {
         "trusted_base": COMMON_TB + ["modelled: as for C04, including the seven options, HasNextToken/NextToken caching and LastTokenType"],
         "assumptions": COMMON_ASSUME + ["mustache tokenizer: correspondence and oracle only"],
     },
+    "C01": {
+        "module": "Verif.Props.C01",
+        "rule": "random syntax trees (depth 1..5, thorough up to 10) over all 21 binary operators, prefix NOT, unary sign, IS [NOT] NULL, calls of arity 0..3 and indexes, each printed with minimal, random and full parenthesisation, random spacing/comments/keyword case, evaluated under random assignments of integer/long/float/double/string/boolean/null/array/time values with both managers; plus the complete operator-pair matrix `7 op1 2 op2 3` in both nestings (441 x 2). Oracle: direct evaluation of the abstract tree in Go with the manager's own operations. The compiled program (ResultTokens) and the assignment are also evaluated by the Lean evaluator model. Non-trivial = program of at least three tokens.",
+        "explanation": "Theorems: run_postorder / C01_calc_eq_tree — for every well-levelled tree and every environment (any variant operations, variables, functions) the stack machine run on the tree's post-order returns exactly the value (or the first error) of the direct tree evaluation, operands in written order, call arguments in written order; C01_parens_irrelevant, C01_unary_plus_irrelevant; C01_left_assoc / C01_right_nesting_needs_parens / C01_precedence_table (the level of every operator, pairwise disjoint); C01_no_stack_panic. Together with C02_complete (the parser compiles a sentence to the post-order of its tree) this gives calculator = tree value at token level; whitespace/comments/keyword case are the tokenizer's business (C04/C13/C15 + correspondence).",
+        "trusted_base": COMMON_TB + ["modelled: ExpressionCalculator.EvaluateUsingVariablesAndFunctions and CalculationStack as a stack machine parametric in the variant operations (Model/ExprEval.lean); its instantiation with the value/function models (Model/Calc.lean) is what the driver runs", "host terms (math.Pow, float formatting/parsing, clock) are not compared: an evaluation whose model result depends on one is counted as host-dependent"],
+        "assumptions": COMMON_ASSUME + ["evalTree is the reference semantics of a syntax tree (Spec/ExprGrammar.lean); LIKE / NOT LIKE have no variant operation and evaluate to an INTERNAL error on both sides"],
+    },
+    "C02": {
+        "module": "Verif.Props.C02",
+        "rule": "exhaustive: every token sequence of length <= 4 (thorough 5) over 18 token classes (constant, identifier, ( ) [ ] , + - * ^ = AND NOT IS NULL IN LIKE) rendered as an expression string; generated sentences (all operators, calls, indexes; 3 parenthesisation modes; random spacing/comments/keyword case) and 4 token-level mutants each (insert, delete, replace, swap, duplicate over the full operator vocabulary). Oracle: the implementation accepts iff the sequence of its own initial-token types is a sentence of the expression grammar, decided by an independent memoised CFG recogniser; accepted generated sentences must compile to the post-order of their tree. The initial tokens are also parsed by the Lean parser model (accept/reject for rejections, exact program + variable list for acceptances). Non-trivial = at least three tokens.",
+        "explanation": "Theorems: C02_complete_bound — every sentence (token sequence of a well-levelled tree) is accepted with the driver's fuel and compiled to the tree's post-order with the variables in order of first occurrence; C02_no_silent_skip — whatever is accepted IS the token sequence of a well-levelled tree whose post-order is the output (so nothing is skipped, substituted or ignored); C02_accepts_iff; C02_fuel_suffices (termination); C02_reject_has_code; matchTypes_spec (the multi-token matcher, D09).",
+        "trusted_base": COMMON_TB + ["modelled: ExpressionParser.performSyntaxAnalysis… (14 mutually recursive functions over the remaining token list), matchTokensWithTypes; completeLexicalAnalysis is exercised by the harness (initial tokens are taken from the implementation), the tokenizer by C04/C13"],
+        "assumptions": COMMON_ASSUME + ["the property fixes that a rejection carries an error code, not which one: for rejected inputs only accept/reject is compared with the model"],
+    },
 }
